@@ -209,7 +209,13 @@ def gen_cases(rng, tier):
             a = [rng.randint(0, 1) for _ in range(d - 1)]
             c = rep(chain(d), rng.random() < 0.75, x, a, rng.randint(0, 6))
             c['direct'] = True
+            c['sparse_data'] = len(cases) % 2 == 0
             cases.append(c)
+        # ancilla ONE at an index that is no key of the (sparse) data dictionary
+        c = rep(chain(d), True, [1] + [0] * (d - 1), [0] * (d - 2) + [1], 2)
+        c['direct'] = True
+        c['sparse_data'] = True
+        cases.append(c)
     # (e) chains d = 5, 6
     for d in (5, 6):
         for cycles in range(10):
